@@ -18,7 +18,9 @@ RULE = (
     "cases: calls of is_unlabeled / is_labeled / labeled_indices / unlabeled_indices and ExtLabelEncoder "
     "fit → transform → inverse_transform over dtype {float,int,str,object} x sentinel {NaN,None,-1,0,1.5,'nan','',unsupported types} "
     "x shape {(0,),(n,),(n,m),(0,m),(n,0)} x {all missing, none missing, mixed} x list/ndarray input x classes given/inferred "
-    "(incl. duplicates, mixed kinds, classes containing the sentinel, unseen labels, out-of-range codes). "
+    "(incl. duplicates, mixed kinds, classes containing the sentinel, unseen labels, out-of-range codes), as fresh objects and as "
+    "sequences of 2-4 refits of ONE encoder object (set_params -> fit / fit_transform -> transform -> inverse_transform, then other classes / data / dtype), "
+    "each step compared with the history-free model of that step alone. "
     "non-trivial = the call is accepted and the array has at least one missing and one present label "
     "(encoder: at least two classes); distinct = distinct (function, array, dtype, sentinel, classes) tuples"
 )
@@ -26,6 +28,7 @@ ASSUMPTIONS = [
     "labels reach the Lean model as kind tags (number/NaN/string/None) and order-preserving integer codes computed by the harness per case",
     "the dtype class numpy infers for an input (number/string/object) is passed to the model as a tag (dtype inference is glue, not modelled)",
     "number arrays with a string sentinel passed as ndarray reach numpy's string casting: outside the modelled domain (model answers `unsupported`; counted, not judged)",
+    "refits: the encoder object is re-used across consecutive cases and each step is compared with the history-free model of that step alone (theorem encoder_refit_history_free)",
     "object arrays mixing strings and numbers, NaN as a class label and classes containing None are outside the exercised domain",
 ]
 TRUSTED = [
@@ -118,6 +121,10 @@ def jv(v):
 def unjv(v):
     if isinstance(v, list):
         return [unjv(x) for x in v]
+    if isinstance(v, dict) and "__py__" in v:
+        import ast
+
+        return ast.literal_eval(v["__py__"])
     return NAN if v == "__NaN__" else v
 
 
@@ -242,7 +249,7 @@ def case_lbl(ctx, lines, expect, dt, vals, shape, ml, as_list):
                 res[name] = ("ok", fn(yy, missing_label=ml))
         except Exception as e:
             res[name] = ("err", err_enum(e))
-    case = dict(fn="label-predicates", dtype=dt, vals=jv(list(vals)), shape=list(shape), missing_label=jv(ml) if (ml is None or is_num(ml) or is_str(ml)) else repr(ml), as_list=as_list)
+    case = dict(fn="label-predicates", dtype=dt, vals=jv(list(vals)), shape=list(shape), missing_label=jv(ml) if (ml is None or is_num(ml) or is_str(ml)) else {"__py__": repr(ml)}, as_list=as_list)
     kinds = {k for k, _ in res.values()}
     two_d = len(shape) == 2
 
@@ -316,14 +323,26 @@ def sent_name(ml):
     return "badtype"
 
 
-def case_enc(ctx, lines, expect, dt, ml, classes, yfit_vals, yfit_shape, ytr_vals, ytr_shape, inv, fit_as_list=False, classes_as_list=True):
+def case_enc(ctx, lines, expect, dt, ml, classes, yfit_vals, yfit_shape, ytr_vals, ytr_shape, inv, fit_as_list=False, classes_as_list=True,
+             le_obj=None, history=None, use_fit_transform=False):
+    """One encoder case: fit -> transform(ytr) -> inverse_transform(transform(ytr)) -> inverse_transform(inv).
+    With `le_obj` the SAME (already used) encoder object is re-parametrised through set_params and refitted; `history` are
+    the replay records of the earlier steps on that object.  The model line always describes the last fit only (the model
+    is history-free, theorem `encoder_refit_history_free`), so any state surviving a refit shows as a disagreement and
+    fails the property oracle below.  Returns the replay record of this step."""
     from skactiveml.utils import ExtLabelEncoder
+
+    history = list(history or [])
 
     coder = Coder(list(yfit_vals), list(ytr_vals), ml, classes)
     yfit = make_array(dt, yfit_vals, yfit_shape, fit_as_list and dt not in ("object", "objnum"))
     ytr = make_array(dt, ytr_vals, ytr_shape, False)
-    case = dict(fn="ExtLabelEncoder", dtype=dt, missing_label=jv(ml) if (ml is None or is_num(ml) or is_str(ml)) else repr(ml), classes=jv(classes) if classes is not None else None,
-                yfit=jv(list(yfit_vals)), yfit_shape=list(yfit_shape), ytr=jv(list(ytr_vals)), ytr_shape=list(ytr_shape), inv=list(inv), fit_as_list=fit_as_list)
+    case = dict(fn="ExtLabelEncoder", dtype=dt, missing_label=jv(ml) if (ml is None or is_num(ml) or is_str(ml)) else {"__py__": repr(ml)}, classes=jv(classes) if classes is not None else None,
+                yfit=jv(list(yfit_vals)), yfit_shape=list(yfit_shape), ytr=jv(list(ytr_vals)), ytr_shape=list(ytr_shape), inv=list(inv), fit_as_list=fit_as_list,
+                classes_as_list=classes_as_list, fit_transform=use_fit_transform)
+    record = dict(case)
+    case["history"] = history
+    reused = " on a re-used encoder object (after %d earlier fit(s))" % len(history) if history else ""
     cls_arg = None
     if classes is not None:
         cls_arg = list(classes) if classes_as_list else np.array(classes)
@@ -332,10 +351,22 @@ def case_enc(ctx, lines, expect, dt, ml, classes, yfit_vals, yfit_shape, ytr_val
     viol = None
     K = None
     known_defect = False
+    ft = None
     try:
-        le = ExtLabelEncoder(classes=cls_arg, missing_label=ml).fit(yfit)
+        if le_obj is None:
+            obj = ExtLabelEncoder(classes=cls_arg, missing_label=ml)
+        else:
+            obj = le_obj.set_params(classes=cls_arg, missing_label=ml)
+        if use_fit_transform:
+            try:
+                ft = ("ok", np.asarray(obj.fit_transform(yfit)))
+            except Exception as e:
+                ft = ("err", err_enum(e))
+        le = obj.fit(yfit)
     except Exception as e:
         impl = err_enum(e)
+    if ft is not None and ft[0] == "err" and le is None and ft[1] != impl:
+        viol = ("fit_transform-differs", f"fit_transform raised {ft[1]} but fit raised {impl}")
     if le is not None:
         K = len(le.classes_)
         dk = kind_of(np.empty(0, dtype=le._dtype))
@@ -346,20 +377,28 @@ def case_enc(ctx, lines, expect, dt, ml, classes, yfit_vals, yfit_shape, ytr_val
             out.append(("ok " + " ".join(str(int(v)) for v in np.asarray(enc).ravel())).strip())
         except Exception as e:
             out.append(err_enum(e))
+        if ft is not None:
+            # fit_transform(y) must be fit(y).transform(y) (the generator uses ytr = yfit in this mode)
+            if ft[0] == "ok" and not (enc is not None and np.array_equal(np.asarray(enc).ravel(), ft[1].ravel())):
+                viol = ("fit_transform-differs", "fit_transform(y) differs from fit(y).transform(y)")
+            elif ft[0] == "err" and (enc is not None or out[-1] != ft[1]):
+                viol = ("fit_transform-differs", f"fit_transform(y) raised {ft[1]} but fit(y).transform(y) gave {out[-1][:30]}")
         if enc is not None:
             try:
                 rt = le.inverse_transform(enc)
                 out.append(("ok " + coder.toks(np.asarray(rt).ravel().tolist())).strip())
                 # --- property oracle: round trip reproduces y; range; order
                 rtl = np.asarray(rt).ravel().tolist()
-                if np.asarray(rt).shape != tuple(ytr_shape) and len(ytr_vals):
+                if viol is not None:
+                    pass
+                elif np.asarray(rt).shape != tuple(ytr_shape) and len(ytr_vals):
                     viol = ("roundtrip-shape", "inverse_transform(transform(y)) has a different shape than y")
                 elif len(rtl) != len(ytr_vals) or not all(same_label(a, b) for a, b in zip(rtl, ytr_vals)):
                     viol = ("roundtrip", "inverse_transform(transform(y)) does not reproduce y")
                 encl = [int(v) for v in np.asarray(enc).ravel()]
                 known = [c.item() if hasattr(c, "item") else c for c in le.classes_]
                 unseen = [v for v in ytr_vals if not equals_sentinel(v, ml) and not any(same_label(v, c) for c in known)]
-                if unseen:
+                if unseen and viol is None:
                     # transform must raise on labels that are neither a class nor the sentinel
                     cast_hit = False
                     try:
@@ -381,19 +420,28 @@ def case_enc(ctx, lines, expect, dt, ml, classes, yfit_vals, yfit_shape, ytr_val
                             break
             except Exception as e:
                 out.append(err_enum(e))
-                viol = ("roundtrip-raises", f"inverse_transform(transform(y)) raised {type(e).__name__}")
+                viol = viol or ("roundtrip-raises", f"inverse_transform(transform(y)) raised {type(e).__name__}")
         else:
             out.append("-")
             # --- property oracle: transform raised although every label is a class or the sentinel?
             if out[1] == "err unseen":
                 known = [c.item() if hasattr(c, "item") else c for c in le.classes_]
-                if all(equals_sentinel(v, ml) or any(same_label(v, c) for c in known) for v in ytr_vals):
+                if viol is None and all(equals_sentinel(v, ml) or any(same_label(v, c) for c in known) for v in ytr_vals):
                     viol = ("spurious-unseen", "transform raised 'unseen labels' although every label is a class or the sentinel")
         try:
             dec = le.inverse_transform(np.array(list(inv), dtype=int))
             out.append(("ok " + coder.toks(np.asarray(dec).ravel().tolist())).strip())
+            # property oracle: code i decodes to classes_[i], -1 to the sentinel (of the LAST fit)
+            decl = np.asarray(dec).ravel().tolist()
+            cur = [c.item() if hasattr(c, "item") else c for c in le.classes_]
+            if viol is None and not all(-1 <= i < K for i in inv):
+                viol = ("inverse-accepts-out-of-range", "inverse_transform accepted a code outside -1..K-1")
+            elif viol is None and (len(decl) != len(inv) or not all(same_label(d, ml if i == -1 else cur[i]) for d, i in zip(decl, inv))):
+                viol = ("inverse-wrong", "inverse_transform does not decode code i to classes_[i] / -1 to missing_label")
         except Exception as e:
             out.append(err_enum(e))
+            if viol is None and all(-1 <= i < K for i in inv):
+                viol = ("inverse-raises", f"inverse_transform raised {type(e).__name__} on codes within -1..K-1")
         impl = " ; ".join(out)
         # classes_ sorted strictly and equal to the de-duplicated classes / labeled values
         cl = [c.item() if hasattr(c, "item") else c for c in le.classes_]
@@ -413,17 +461,40 @@ def case_enc(ctx, lines, expect, dt, ml, classes, yfit_vals, yfit_shape, ytr_val
     lines.append(line)
     expect.append((" ".join(impl.split()), dict(case, _skip_compare=known_defect)))
     ok_all = le is not None and all(o.startswith("ok") for o in out)
-    ctx.case(("enc", dt, repr(ml), repr(classes), repr(list(yfit_vals)), tuple(yfit_shape), repr(list(ytr_vals)), tuple(ytr_shape), tuple(inv)), ok_all and K >= 2, sample=dict(case, result=impl[:140]))
+    ctx.case(("enc", dt, repr(ml), repr(classes), repr(list(yfit_vals)), tuple(yfit_shape), repr(list(ytr_vals)), tuple(ytr_shape), tuple(inv), use_fit_transform, repr(history)),
+             ok_all and K >= 2, sample=dict(case, result=impl[:140]) if not history or len(ctx.samples) < 3 else None)
+    if history:
+        ctx.count("enc_reused_object_steps")
+        if le is not None and history[-1].get("_classes_tok") is not None and history[-1]["_classes_tok"] != out[0]:
+            ctx.count("enc_refit_changed_classes_or_dtype")
+    if use_fit_transform:
+        ctx.count("enc_fit_transform_calls")
+    record["_classes_tok"] = out[0] if le is not None else None
     ctx.count(f"enc_{dt}_" + ("fit-" + impl.replace(" ", "_")[:20] if le is None else "fitted"))
     if le is not None:
         ctx.count("enc_transform_" + out[1].split(" ")[0] + ("_" + out[1].split(" ")[1] if out[1].startswith("err") else ""))
         ctx.count("enc_inverse_" + out[3].split(" ")[0] + ("_" + out[3].split(" ")[1] if out[3].startswith("err") else ""))
         ctx.count("enc_classes_" + ("given" if classes is not None else "inferred"))
     if viol:
+        sfx = "/reused-encoder" if history else ""
         if viol[0].startswith("unseen-label-accepted"):
-            ctx.violate(f"C16/ExtLabelEncoder.transform/{viol[0]}", viol[1], case)
+            ctx.violate(f"C16/ExtLabelEncoder.transform/{viol[0]}{sfx}", viol[1] + reused, case)
         else:
-            ctx.violate(f"C16/ExtLabelEncoder/{viol[0]}/{dt}-{sent_name(ml)}", viol[1], case)
+            ctx.violate(f"C16/ExtLabelEncoder/{viol[0]}/{dt}-{sent_name(ml)}{sfx}", viol[1] + reused, case)
+    return record
+
+
+def case_enc_seq(ctx, lines, expect, steps):
+    """Consecutive encoder cases on ONE encoder object: set_params(classes, missing_label) -> fit / fit_transform ->
+    transform -> inverse_transform, then again with other data / classes / dtype.  Every step is compared with the model of
+    that step alone and judged by the oracle of that step alone."""
+    from skactiveml.utils import ExtLabelEncoder
+
+    obj = ExtLabelEncoder()
+    hist = []
+    for st in steps:
+        rec = case_enc(ctx, lines, expect, le_obj=obj, history=hist, **st)
+        hist = hist + [rec]
 
 
 def arr_like_tokens(coder, dt, vals, shape, built):
@@ -462,9 +533,12 @@ def natural_sentinels(dt):
     return {"float": [NAN, -1, 0, None, 1.5], "int": [-1, 0, NAN, None, 1.5], "str": ["nan", "", None], "object": [None], "objnum": [None]}[dt]
 
 
-def random_enc_case(ctx, lines, expect, rng):
-    dt = rng.choice(["float", "int", "str", "object", "objnum", "float", "str"])
-    ml = rng.choice(natural_sentinels(dt)) if rng.random() < 0.8 else rng.choice(SENTINELS + BAD_SENTINELS[:2])
+def gen_enc_params(rng, dt=None, ml="__draw__", natural_only=False):
+    """keyword arguments of one `case_enc` call"""
+    if dt is None:
+        dt = rng.choice(["float", "int", "str", "object", "objnum", "float", "str"])
+    if isinstance(ml, str) and ml == "__draw__":
+        ml = rng.choice(natural_sentinels(dt)) if (natural_only or rng.random() < 0.8) else rng.choice(SENTINELS + BAD_SENTINELS[:2])
     alpha = [v for v in DTYPES[dt]["alpha"] if not is_nan(v) or is_nan(ml)]
     labels = [v for v in alpha if v is not None and not equals_sentinel(v, ml)]
     sent_in = [v for v in alpha if equals_sentinel(v, ml)]
@@ -499,8 +573,28 @@ def random_enc_case(ctx, lines, expect, rng):
     K = len(set(classes)) if classes is not None else len({Coder(yfit).tok(v) for v in yfit if not equals_sentinel(v, ml)})
     inv = [rng.choice([-1] + list(range(max(K, 1))) * 2 + ([K, -2, K + 1] if rng.random() < 0.2 else [])) for _ in range(rng.randint(0, 5))]
     # keep dtype-homogeneous inputs only (a str appended to number classes is the 'mixed kinds' probe for check_classes)
-    case_enc(ctx, lines, expect, dt, ml, classes, yfit, shp, ytr, ytr_shape, inv, fit_as_list=rng.random() < 0.3,
-             classes_as_list=(classes is not None and any(is_str(c) for c in classes) and any(is_num(c) for c in classes)) or rng.random() < 0.7)
+    return dict(dt=dt, ml=ml, classes=classes, yfit_vals=yfit, yfit_shape=shp, ytr_vals=ytr, ytr_shape=ytr_shape, inv=inv, fit_as_list=rng.random() < 0.3,
+                classes_as_list=(classes is not None and any(is_str(c) for c in classes) and any(is_num(c) for c in classes)) or rng.random() < 0.7)
+
+
+def random_enc_case(ctx, lines, expect, rng):
+    case_enc(ctx, lines, expect, **gen_enc_params(rng))
+
+
+def random_enc_seq(ctx, lines, expect, rng):
+    """2-4 consecutive fits of one encoder object; consecutive steps mostly keep the label dtype (so that stale state
+    would go unnoticed by type errors) but change classes / data / sentinel / given-vs-inferred classes."""
+    steps = []
+    dt = rng.choice(["float", "int", "str", "object", "objnum", "float", "str"])
+    for k in range(rng.randint(2, 4)):
+        if k and rng.random() < 0.25:
+            dt = rng.choice(["float", "int", "str", "object", "objnum"])
+        st = gen_enc_params(rng, dt=dt, natural_only=rng.random() < 0.9)
+        if rng.random() < 0.3:
+            st["use_fit_transform"] = True
+            st["ytr_vals"], st["ytr_shape"] = list(st["yfit_vals"]), st["yfit_shape"]
+        steps.append(st)
+    case_enc_seq(ctx, lines, expect, steps)
 
 
 def correspond(ctx):
@@ -519,6 +613,8 @@ def correspond(ctx):
         case_lbl(ctx, lines, expect, dt, vals, shp, ml, as_list=rng.random() < 0.4)
     for _ in range(n_enc):
         random_enc_case(ctx, lines, expect, rng)
+    for _ in range(600 if not ctx.thorough else 6000):
+        random_enc_seq(ctx, lines, expect, rng)
     if ctx.thorough:
         exhaustive(ctx, lines, expect)
     outs = vlib.run_driver(lines)
@@ -585,6 +681,7 @@ def search(ctx):
         vals = pick_vals(rng, dt, ml, int(np.prod(shp)), rng.choice(["all-missing", "none-missing", "mixed"]))
         case_lbl(ctx, lines, expect, dt, vals, shp, ml, as_list=rng.random() < 0.4)
         random_enc_case(ctx, lines, expect, rng)
+        random_enc_seq(ctx, lines, expect, rng)
         if ctx.violations:
             return
 
@@ -597,8 +694,23 @@ def replay(payload):
     if r.get("fn") == "label-predicates":
         case_lbl(ctx, lines, expect, r["dtype"], unjv(r["vals"]), tuple(r["shape"]), ml, r["as_list"])
     elif r.get("fn") == "ExtLabelEncoder":
-        cls = None if r["classes"] is None else unjv(r["classes"])
-        case_enc(ctx, lines, expect, r["dtype"], ml, cls, unjv(r["yfit"]), tuple(r["yfit_shape"]), unjv(r["ytr"]), tuple(r["ytr_shape"]), r["inv"], fit_as_list=r.get("fit_as_list", False))
+        def params(q):
+            return dict(dt=q["dtype"], ml=unjv(q.get("missing_label")), classes=None if q["classes"] is None else unjv(q["classes"]),
+                        yfit_vals=unjv(q["yfit"]), yfit_shape=tuple(q["yfit_shape"]), ytr_vals=unjv(q["ytr"]), ytr_shape=tuple(q["ytr_shape"]), inv=q["inv"],
+                        fit_as_list=q.get("fit_as_list", False), classes_as_list=q.get("classes_as_list", True), use_fit_transform=q.get("fit_transform", False))
+
+        if r.get("history"):
+            # re-run the whole history on one encoder object; only the last step is judged
+            from skactiveml.utils import ExtLabelEncoder
+
+            obj = ExtLabelEncoder()
+            scratch = vlib.Ctx("C16", "quick", 0)
+            hist = []
+            for q in r["history"]:
+                hist = hist + [case_enc(scratch, [], [], le_obj=obj, history=hist, **params(q))]
+            case_enc(ctx, lines, expect, le_obj=obj, history=hist, **params(r))
+        else:
+            case_enc(ctx, lines, expect, **params(r))
     for v in ctx.violations:
         print("REPRODUCED:", v["key"], "-", v["what"])
     return 1 if ctx.violations else 0
